@@ -349,7 +349,7 @@ def gen_cases(ctx):
 
 def run(ctx) -> None:
     install()
-    n_max = {"quick": 4000, "thorough": 60000}[ctx.tier]
+    n_max = {"quick": 20000, "thorough": 300000}[ctx.tier]
     done = 0
     for case in gen_cases(ctx):
         if ctx.expired() or done >= n_max:
